@@ -191,6 +191,12 @@ def run(prop, tier):
             "failure_counts": {k: v for k, v in agg["fail_counts"].items() if k.startswith("C19")},
         }
     )
+    try:  # wp2_bfull2: crashes of whole-rule-modelled rules on engine-producible token state (real raises, model does not)
+        import props_bfull2
+
+        props_bfull2.extra(res, tier, "C19")
+    except ImportError:
+        pass
     res.assumptions = ["rule bodies and classifier productions are layer U: totality is decided on the explored inputs only", "hang = no result within %d s on an otherwise idle worker" % ALARM_S]
     return res.finish(max(nobl, 1), ndis, "cd lean && lake build VsgProofs.Properties.C19", thms)
 
